@@ -166,6 +166,25 @@ func runC09(c *Ctx) {
 					}
 					cal := t.Call.StaticCallee()
 					if cal == nil {
+						// the text of an error this module has just made (errors.New / fmt.Errorf): its
+						// Error method is the library's own
+						if t.Call.IsInvoke() && t.Call.Method.Name() == "Error" && isErrorType(t.Call.Value.Type()) {
+							xi := c.Index(i2.Parent())
+							made := true
+							vals := xi.ValuesAt(t.Call.Value, i2)
+							for _, pv := range vals {
+								if pv.V == nil || isConstNil(pv.V) {
+									continue
+								}
+								mk, isCall := xi.Origin(pv.V).(*ssa.Call)
+								if !isCall || !(fnIs(mk.Call.StaticCallee(), "errors", "", "New") || fnIs(mk.Call.StaticCallee(), "fmt", "", "Errorf")) {
+									made = false
+								}
+							}
+							if made && len(vals) > 0 {
+								return
+							}
+						}
 						bad, badPos = "a dynamic call", i2.Pos()
 						return
 					}
